@@ -1,7 +1,6 @@
 (* Exec.WfProofs -- the well-formedness invariant of Exec.Proj is preserved by
    every step and holds initially. *)
 From Coq Require Import ZArith List Bool Lia Permutation.
-Set Default Timeout 60.
 From RP Require Import Common.Eqb Exec.Model Exec.Oracle Exec.Local Exec.Proj Exec.ProjProofs.
 Import ListNotations.
 Local Open Scope Z_scope.
